@@ -787,6 +787,15 @@ func selftest(e *env, args []string) int {
 					end = len(jobs)
 				}
 				o := e.runBatch(jobs[off:end], 600*time.Second)
+				for len(o.missing) > 0 && !o.crashed && !o.timedOut && len(o.results) > 0 {
+					// the worker stopped at its heap budget: continue in a fresh process
+					o2 := e.runBatch(o.missing, 600*time.Second)
+					o.results = append(o.results, o2.results...)
+					o.missing, o.crashed, o.timedOut, o.log = o2.missing, o2.crashed, o2.timedOut, o2.log
+					if len(o2.results) == 0 {
+						break
+					}
+				}
 				if len(o.missing) > 0 {
 					fmt.Printf("selftest: worker lost %d jobs (scenario %s):\n%s\n", len(o.missing), sc, tail(o.log, 3000))
 					bad++
